@@ -3,6 +3,7 @@
 /verif/corpus_results.json (which rule reported which mutant); used by tools/gen_design.py"""
 import json, os, sys
 sys.path.insert(0, os.path.join(os.path.dirname(os.path.dirname(os.path.abspath(__file__))), "engine"))
+sys.path.insert(0, os.path.join(os.path.dirname(os.path.dirname(os.path.abspath(__file__))), "rules"))
 from bsa import selftest
 out = {}
 for i in range(1, 21):
